@@ -517,7 +517,7 @@ class NDNApp:
             raise ValueError(f'Duplicated registration: {Name.to_str(name)}')
         node.callback = func
         node.extra_param = {'raw_packet': need_raw_packet, 'sig_ptrs': need_sig_ptrs}
-        if validator:
+        if validator is not None:
             node.validator = validator
 
     def unset_interest_filter(self, name: NonStrictName):
@@ -576,7 +576,7 @@ class NDNApp:
         # In case the validator blocks the pipeline, create a task
         async def submit_interest():
             if sig.signature_info is not None:
-                validator = node.validator if node.validator else self.int_validator
+                validator = node.validator if node.validator is not None else self.int_validator
                 valid = await validator(name, sig)
             else:
                 valid = True
